@@ -771,6 +771,26 @@ func (ec *evalCtx) call(x *ast.CallExpr) (T, types.Type, error) {
 			arr = ec.now.callsR
 		}
 		return T{S: app("select", arr, i.S), Sort: SInt}, nil, nil
+	case "mapHas", "mapGet":
+		if err := argN(2); err != nil {
+			return T{}, nil, err
+		}
+		m, mt, err := ec.eval(x.Args[0])
+		if err != nil {
+			return m, nil, err
+		}
+		k, _, err := ec.eval(x.Args[1])
+		if err != nil {
+			return k, nil, err
+		}
+		if _, ok := mt.Underlying().(*types.Map); !ok {
+			return T{}, nil, ec.errf(x, "not a map")
+		}
+		mk := vc.mapInfo(mt)
+		if name == "mapGet" {
+			return T{S: vc.mapVal(ec.now, mk, m.S, k.S), Sort: mk.vsort}, mt.Underlying().(*types.Map).Elem(), nil
+		}
+		return T{S: and(not(eq(m.S, "0")), vc.mapHas(ec.now, mk, m.S, k.S)), Sort: SBool}, types.Typ[types.Bool], nil
 	case "typeis":
 		// typeis(x, T): the dynamic type of interface value x is T
 		if err := argN(2); err != nil {
@@ -1105,6 +1125,15 @@ func (ec *evalCtx) goCall(x *ast.CallExpr) (T, types.Type, error) {
 			args[i] = vc.zero(fn.Params[i].Type())
 		}
 	}
+	if fn.Pkg != nil && fn.Parent() == nil {
+		if blk, ok := vc.P.Blocks[funcKey(fn)]; ok && blk.Abstract {
+			var t types.Type
+			if sig.Results().Len() == 1 {
+				t = sig.Results().At(0).Type()
+			}
+			return vc.abstractUF(fn, args), t, nil
+		}
+	}
 	r, err := vc.pureCall(ec.now, fn, args)
 	if err != nil {
 		return T{}, nil, ec.errf(x, "%v", err)
@@ -1132,5 +1161,21 @@ func (vc *VC) ifaceUF(m *types.Func, args []T) T {
 	for _, a := range args {
 		as = append(as, a.S)
 	}
+	return T{S: app(name, as...), Sort: rs}
+}
+
+func (vc *VC) abstractUF(fn *ssa.Function, args []T) T {
+	name := "af_" + mangle(funcKey(fn))
+	var sorts, as []string
+	for _, a := range args {
+		sorts = append(sorts, a.Sort)
+		as = append(as, a.S)
+	}
+	rs := SInt
+	if fn.Signature.Results().Len() == 1 {
+		rs = vc.sortOf(fn.Signature.Results().At(0).Type())
+	}
+	vc.declare(name, sorts, rs)
+	vc.note("assumed: " + funcKey(fn) + " is a pure function of its arguments (abstract contract)")
 	return T{S: app(name, as...), Sort: rs}
 }
